@@ -295,6 +295,9 @@ pub struct GenCfg {
     pub styles: bool,
     /// Weight (out of 100) of multi-record batches among appends.
     pub w_multi_batch: u32,
+    /// Percentage of histories into which a delete + re-create motif is spliced: create q, append a few records,
+    /// delete q, create q again, append a batch whose range overlaps the old positions.
+    pub w_recreate_motif: u32,
     /// Weight (added to the 100 above) of uniform batches of item-aligned records (169 B x many, 32749 B x few).
     pub w_aligned_batch: u32,
     /// Skew `QSel::Existing` towards the first queues (busy queues vs. idle ones).
@@ -357,6 +360,7 @@ impl Default for GenCfg {
             styles: true,
             w_multi_batch: 45,
             w_aligned_batch: 3,
+            w_recreate_motif: 6,
             skew_queues: false,
         }
     }
@@ -545,11 +549,43 @@ pub fn history_strategy(cfg: &GenCfg) -> BoxedStrategy<Vec<SOp>> {
         (1, Just(0u8).boxed()),
         (9, (1..=pool).boxed()),
     ]);
+    let motif_weight = cfg.w_recreate_motif.min(100);
+    let motif = weighted(vec![
+        (100 - motif_weight, Just(None).boxed()),
+        (
+            motif_weight.max(1),
+            (0..pool, any::<u16>(), 1usize..=4, 3usize..=8, any::<u64>(), any::<bool>())
+                .prop_map(|choice| Some(choice))
+                .boxed(),
+        ),
+    ]);
     (
         prelude,
         proptest::collection::vec(sop_strategy(cfg), cfg.min_ops..=cfg.max_ops),
+        motif,
     )
-        .prop_map(|(prelude, mut ops)| {
+        .prop_map(move |(prelude, mut ops, motif)| {
+            if motif_weight > 0 {
+                if let Some((queue, at, old_count, new_count, seed, filler)) = motif {
+                    let q = || QSel::Pool(queue);
+                    let pay = |idx: u64, len: LenSel| PaySel { len, seed: seed.wrapping_add(idx), style: 0 };
+                    let mut motif_ops = vec![
+                        SOp::Create { q: q() },
+                        SOp::Append { q: q(), pos: PosSel::Auto, batch: (0..old_count as u64).map(|idx| pay(idx, LenSel::Small((idx as u16).wrapping_mul(7919)))).collect() },
+                        SOp::Delete { q: q() },
+                        SOp::Create { q: q() },
+                    ];
+                    if filler {
+                        // something else in between (possibly moving the cursor into the next block)
+                        motif_ops.push(SOp::Append { q: QSel::Existing(at), pos: PosSel::Auto, batch: vec![pay(99, LenSel::Blockish(at))] });
+                    }
+                    motif_ops.push(SOp::Append { q: q(), pos: PosSel::Auto, batch: (0..new_count as u64).map(|idx| pay(100 + idx, LenSel::Small((idx as u16).wrapping_mul(30_011)))).collect() });
+                    let index = pick(at, ops.len() + 1);
+                    let tail = ops.split_off(index);
+                    ops.extend(motif_ops);
+                    ops.extend(tail);
+                }
+            }
             let mut all: Vec<SOp> = (0..prelude).map(|idx| SOp::Create { q: QSel::Pool(idx) }).collect();
             all.append(&mut ops);
             all
